@@ -19,9 +19,11 @@
      and evaluated by the harness on the state of every merge it drives), every kind of composite.
    * "while out every attempt to change its inputs is refused ... unlocked after success AND failure":
      C10_lock_*, for EVERY state.
-   One clause is still violated by the code: a WORKFLOW that is out leaves its inputs (its children's channels)
+   Two clauses are still violated by the code: a WORKFLOW that is out leaves its inputs (its children's channels)
    writable -- C10_lock_refuted_workflow, known finding C10-workflow-inputs-unlocked; C10_lock_partial carries the
-   matching guard (the channel is owned by the node that is out). *)
+   matching guard (the channel is owned by the node that is out) -- and the merge pushes an enclosing macro's value
+   into the returned node's fresh input -- C10_delivered_refuted_relink, known finding
+   C10-relink-pushes-parent-value. *)
 From PW Require Import Base Remote RemoteProofs.
 From PW Require Dag DagProofs.
 
@@ -111,6 +113,25 @@ Theorem C10_lock_again_after_merge : forall h i c2 s l v c X,
 Proof. exact repaired_lock_again. Qed.
 Print Assumptions C10_lock_again_after_merge.
 
+(* A refused assignment changes NOTHING, wherever it was made: if any channel on the receiver chain of the assigned
+   channel is locked -- the channel itself, or the input of ANOTHER node it forwards into (an enclosing macro's
+   input value-linked to the input of a nested node that is out) -- the setter refuses before anything is stored:
+   heap, jobs untouched, RuntimeError.  (The setter's order own-check -> forward -> store is what makes this
+   true; storing before forwarding breaks it.) *)
+Theorem C10_refused_changes_nothing : forall mode X s i l v c,
+  find_chan (c_heap s) i PIn l = Some c ->
+  existsb (locked (c_heap s)) (chain VFUEL (c_heap s) c) = true ->
+  step mode X s (OSetOn i l v) = log s (c_heap s) (c_jobs s) "RuntimeError".
+Proof. exact refused_changes_nothing. Qed.
+Print Assumptions C10_refused_changes_nothing.
+
+(* ... at the level of the setter: refused iff somebody on the chain is locked *)
+Theorem C10_setter_refuses_iff_chain_locked : forall fuel h c v,
+  (existsb (locked h) (chain fuel h c) = true -> set_val fuel h c v = None) /\
+  (forall h1, set_val fuel h c v = Some h1 -> existsb (locked h) (chain fuel h c) = false).
+Proof. intros fuel h c v. split; [apply set_val_refused_chain|apply set_val_accepted_chain]. Qed.
+Print Assumptions C10_setter_refuses_iff_chain_locked.
+
 (* while out, assignments leave the whole heap and the job list untouched *)
 Theorem C10_frozen_while_out : forall mode X sets s, Forall is_set sets ->
   n_running (nd (c_heap s) X) = true ->
@@ -155,6 +176,19 @@ Theorem C10_lock_refuted_workflow : exists h wf c,
   In c (shown_inputs h wf) /\ locked h c = false /\ c_owner (ch h c) <> wf.
 Proof. exact lock_refuted_workflow. Qed.
 Print Assumptions C10_lock_refuted_workflow.
+
+(* STILL VIOLATED: the merge re-points an enclosing macro's input at the fresh input channel through the
+   value_receiver SETTER, which pushes the enclosing macro's value: a nested macro that was sent out with
+   x = 5 (assigned at its own input; links are one-directional) comes back showing x = 1 and holding the output
+   for 5 (known finding C10-relink-pushes-parent-value; follow-up repair build/c10_fix2.diff = RELINK_PUSH false) *)
+Theorem C10_delivered_refuted_relink :
+  RELINK_PUSH = true /\
+  let s := run_ops AsWritten 2 demo_nested [OSet "x" 5%Z; ORun; OComplete] in
+  c_log s = [OS "ok"; OS "Future"; OS "done"] /\
+  chan_val (c_heap s) 2 PIn "x" = Some 1%Z /\ chan_val (c_heap s) 2 POut "out" = Some 8%Z /\
+  apply_fun FLin [101; 2; 2]%Z = Some 4%Z.
+Proof. exact relink_push_refuted. Qed.
+Print Assumptions C10_delivered_refuted_relink.
 
 (* ---- non-vacuity (states reflected from real object graphs) --------------------------------------------- *)
 (* the state in which the real macro /wf/n1 = MA{a -> b}, connected to /wf/n0 and /wf/n2, is merged after a
@@ -207,3 +241,15 @@ Proof.
   eexists. split; [vm_compute; reflexivity|]. split; [vm_compute; reflexivity|]. split; [vm_compute; reflexivity|].
   split; [vm_compute; reflexivity|]. do 4 eexists. repeat split; vm_compute; reflexivity.
 Qed.
+
+(* the real nested macro inner = MA inside the idle macro n0 = MF(x = 1): while inner is out an assignment at n0's
+   input bounces and the rendered graph is identical; inner comes back showing x = 1 with out = 4 *)
+Example C10_nested_refused :
+  let s1 := run_ops AsWritten 2 demo_nested [ORun] in
+  let s2 := step AsWritten 2 s1 (OSetOn 1 "x" 10%Z) in
+  c_log s2 = [OS "Future"; OS "RuntimeError"] /\
+  render (c_heap s2) 0 = render (c_heap s1) 0 /\
+  let s3 := step AsWritten 2 (step AsWritten 2 s2 (OSet "x" 10%Z)) OComplete in
+  chan_val (c_heap s3) 1 PIn "x" = Some 1%Z /\ chan_val (c_heap s3) 2 PIn "x" = Some 1%Z /\
+  chan_val (c_heap s3) 2 POut "out" = Some 4%Z.
+Proof. exact nested_refused_example. Qed.
